@@ -555,6 +555,33 @@ func TestC07(t *testing.T) {
 			}
 		}
 	}
+	// Vegas configured with another baseline measurement (an exponential average): healthy saturated traffic at the baseline RTT still
+	// recovers the estimate to the ceiling, also after a collapse and across baseline probes
+	for _, init := range []int{4, 10, 60} {
+		for _, mult := range []int{1 << 20, 30} {
+			v := limit.NewVegasLimitWithRegistry("v", init, measurements.NewExponentialAverageMeasurement(100, 10), 200, 1.0, nil, nil, nil, nil, nil, mult, nil, nil)
+			n := 0
+			for i := 0; i < 30; i++ { // collapse first
+				n++
+				v.OnSample(int64(n)*1000, 1_000_000, v.EstimatedLimit()+1, true)
+			}
+			low := v.EstimatedLimit()
+			reached := false
+			for i := 0; i < 4000; i++ {
+				n++
+				v.OnSample(int64(n)*1000, 1_000_000, v.EstimatedLimit()+1, false)
+				rep.Evaluations++
+				if v.EstimatedLimit() >= 199 {
+					reached = true
+					break
+				}
+			}
+			rep.Distinct("vegas-custom-baseline-recovery", fmt.Sprint(init, mult, low, reached))
+			if !reached {
+				rep.Violate("vegas:no-recovery:custom-baseline", fmt.Sprintf("exponential-average baseline, initial %d, probe multiplier %d: after a collapse to %d, 4000 healthy saturated samples at a constant RTT left the estimate at %d (ceiling 200)", init, mult, low, v.EstimatedLimit()), map[string]interface{}{"component": "vegas-custom-baseline", "initial": init, "probe_multiplier": mult})
+			}
+		}
+	}
 }
 
 // ---------------- C15: the no-load baseline is a recent true minimum, refreshed by probing ----------------
@@ -1016,6 +1043,84 @@ func TestC16Traced(t *testing.T) {
 			if len(got) == g || got[len(got)-1] != rec.est {
 				fail("missed-notification", "the delegate's estimate changed but the listener registered through the wrapper was not called with it")
 			}
+		}
+	}
+}
+
+// two instances of the same algorithm side by side: each one's listeners hear that instance's changes and nothing else
+func TestC16TwoInstances(t *testing.T) {
+	rep := NewReport("C16two")
+	defer rep.Write(t)
+	mk := []struct {
+		name string
+		f    func() core.Limit
+	}{
+		{"aimd", func() core.Limit { return limit.NewAIMDLimit("a", 10, 0.9, 1, nil) }},
+		{"vegas", func() core.Limit {
+			return limit.NewVegasLimitWithRegistry("v", 10, nil, 200, 1.0, nil, nil, nil, nil, nil, 1<<20, nil, nil)
+		}},
+		{"gradient", func() core.Limit {
+			return limit.NewGradientLimitWithRegistry("g", 10, 1, 200, 1.0, nil, 2.0, -1, nil, nil)
+		}},
+		{"gradient2", func() core.Limit {
+			l, _ := limit.NewGradient2Limit("g2", 10, 200, 4, nil, 1.0, 100, nil, nil)
+			return l
+		}},
+		{"settable", func() core.Limit { return limit.NewSettableLimit("s", 10, nil) }},
+	}
+	for _, k := range mk {
+		for n := 1; n <= 3; n++ { // listeners per instance
+			a, b := k.f(), k.f()
+			var gotA, gotB [][]int
+			for i := 0; i < n; i++ {
+				i := i
+				gotA, gotB = append(gotA, nil), append(gotB, nil)
+				a.NotifyOnChange(func(v int) { gotA[i] = append(gotA[i], v) })
+				b.NotifyOnChange(func(v int) { gotB[i] = append(gotB[i], v) })
+			}
+			drive := func(l core.Limit, step int) {
+				if s, ok := l.(*limit.SettableLimit); ok {
+					s.SetLimit(20 + step)
+					return
+				}
+				l.OnSample(int64(step)*1000, 1_000_000, l.EstimatedLimit()+1, false)
+			}
+			fail := func(sig, d string) {
+				rep.Violate(k.name+":"+sig, d, map[string]interface{}{"component": "two-instances", "limit": k.name, "listeners_each": n})
+			}
+			for step := 0; step < 6; step++ {
+				before := a.EstimatedLimit()
+				la, lb := len(gotA[0]), len(gotB[0])
+				drive(a, step)
+				rep.Evaluations++
+				if len(gotB[0]) != lb {
+					fail("foreign-notification", fmt.Sprintf("a sample on instance A called the listener registered on instance B with %v", gotB[0][lb:]))
+				}
+				if a.EstimatedLimit() != before {
+					for i := 0; i < n; i++ {
+						if len(gotA[i]) == 0 || gotA[i][len(gotA[i])-1] != a.EstimatedLimit() || (i == 0 && len(gotA[0]) == la) {
+							fail("missed-notification", fmt.Sprintf("instance A moved %d -> %d, its listener %d of %d has received %v", before, a.EstimatedLimit(), i, n, gotA[i]))
+						}
+					}
+				}
+			}
+			for step := 0; step < 4; step++ {
+				before := b.EstimatedLimit()
+				la := len(gotA[0])
+				drive(b, step)
+				rep.Evaluations++
+				if len(gotA[0]) != la {
+					fail("foreign-notification", fmt.Sprintf("a sample on instance B called the listener registered on instance A with %v", gotA[0][la:]))
+				}
+				if b.EstimatedLimit() != before {
+					for i := 0; i < n; i++ {
+						if len(gotB[i]) == 0 || gotB[i][len(gotB[i])-1] != b.EstimatedLimit() {
+							fail("missed-notification", fmt.Sprintf("instance B moved %d -> %d, its listener %d of %d has received %v", before, b.EstimatedLimit(), i, n, gotB[i]))
+						}
+					}
+				}
+			}
+			rep.Distinct("two-instances", fmt.Sprint(k.name, n, a.EstimatedLimit(), b.EstimatedLimit()))
 		}
 	}
 }
